@@ -25,9 +25,9 @@ EXPLANATION = ("Calling-convention and alignment clauses decided on the ASSEMBLE
                "the lane-precise symbolic evaluation: compress_* read cv[0..32)+block[0..64) and write exactly 32 / 64 bytes; hash_many "
                "reads key[0..32), inputs[g] and the 64 bytes of each input at the block offset and writes 32 bytes per input in the stage "
                "epilogues only; xof_many reads cv/block and writes 64 bytes per block. (This rule found the over-read repaired by 33f270a.) "
-               "Extents of reads/writes inside the C/Rust INTRINSICS kernels and UB-freedom of C in general are NOT decided; MSVC .asm files cannot "
-               "be assembled here.")
-TRUSTED = ["clang integrated assembler + llvm-objdump 14 disassembly", "engines/asmabi/asmabi.py def/use convention (Intel syntax: first operand is the destination; unknown control flow fails closed)",
+               "Extents of reads/writes inside the C/Rust INTRINSICS kernels and UB-freedom of C in general are NOT decided. The MSVC .asm files are translated "
+               "directive-by-directive to GNU syntax (masm2gas.py), assembled with clang and decided by the same rules as the other two flavours.")
+TRUSTED = ["masm2gas.py directive translation (instruction text passes through unchanged); ml64 and clang encode the same mnemonics alike", "clang integrated assembler + llvm-objdump 14 disassembly", "engines/asmabi/asmabi.py def/use convention (Intel syntax: first operand is the destination; unknown control flow fails closed)",
            "SysV AMD64 and Microsoft x64 calling conventions as tabulated in r_asm.py", "prototype table from c/blake3_impl.h"]
 ASSUMPTIONS = ["PB summaries: round_down_to_power_of_2(x) <= x, left_subtree_len(x) <= x for x > CHUNK_LEN, chunk_state_fill_buf returns <= its length argument (itself checked)", "the assembler used by the real build produces the same instruction stream as clang's"]
 TECHNIQUE = "abstract stack/register-save dataflow over disassembled object code + constant-pool comparison"
